@@ -82,13 +82,13 @@ Definition expected (c : cfg) (t : nat) : acc :=
   | GWalk k p => if (ckey (cell_at s p) =? k)%N then AValLoad else ANextLoad
   | PutCas _ _ _ => ABinCas
   | PutFast _ _ _ => AValLoad
-  | PutLock _ _ _ _ | RmLock _ _ | CpLock _ _ _ => ALock
-  | PutReval _ _ _ _ | RmReval _ _ | CpReval _ _ _ => ABinLoad
+  | PutLock _ _ _ _ | RmLock _ _ _ | CpLock _ _ _ => ALock
+  | PutReval _ _ _ _ | RmReval _ _ _ | CpReval _ _ _ => ABinLoad
   | PutWalk k _ no_repl _ p =>
       if (ckey (cell_at s p) =? k)%N then (if no_repl then AValLoad else AValWrite)
       else match cnext (cell_at s p) with None => ANextStore | Some _ => ANextLoad end
-  | RmWalk _ _ _ _ => ANextLoad
-  | RmFound _ _ _ _ _ => AValLoad
+  | RmWalk _ _ _ _ _ => ANextLoad
+  | RmFound _ _ _ _ _ _ => AValLoad
   | RmUnlink _ _ pred _ _ _ => match pred with Some _ => ANextStore | None => ABinStore end
   | CpWalk _ _ _ _ _ => ANextLoad
   | CpFound _ _ _ _ _ _ => AValLoad
@@ -155,14 +155,16 @@ Definition res_eqb (a b : res) : bool :=
 Definition results_of (c : cfg) (t : nat) : list res :=
   rev (map h_res (filter (fun h => Nat.eqb (h_tid h) t) (hist c))).
 
-Fixpoint first_diff (j : nat) (a b : list res) : option nat :=
+(* the implementation reports no result for the removals of a retain: None = not compared *)
+Fixpoint first_diff (j : nat) (a : list res) (b : list (option res)) : option nat :=
   match a, b with
   | [], [] => None
-  | x :: a', y :: b' => if res_eqb x y then first_diff (S j) a' b' else Some j
+  | x :: a', y :: b' =>
+      if match y with Some y' => res_eqb x y' | None => true end then first_diff (S j) a' b' else Some j
   | _, _ => Some j
   end.
 
-Fixpoint results_check (t : nat) (c : cfg) (rs : list (list res)) : option (nat * nat) :=
+Fixpoint results_check (t : nat) (c : cfg) (rs : list (list (option res))) : option (nat * nat) :=
   match rs with
   | [] => None
   | r :: rs' =>
@@ -203,7 +205,7 @@ Record case := mkCase {
   cs_prefill : list opn;                   (* inserted before the threads start *)
   cs_progs : list (list opn);
   cs_trace : list (nat * acc);
-  cs_results : list (list res);            (* per thread, in program order *)
+  cs_results : list (list (option res));   (* per thread, in program order *)
   cs_final : list (list (N * Z))           (* per bin, head first *)
 }.
 
